@@ -330,6 +330,18 @@ def shouldCreateSubMethod (c : Converter) (cx : Ctx) (s t : Ty) : M Bool := do
 def typeMismatch (c : Converter) (s t : Ty) : Diag :=
   if (isPtr c.env s).isSome && (isPtr c.env t).isNone then .typeMismatchPtr else .typeMismatch
 
+/-- which target name a source member gets: an explicit `enum:map` entry, else what the transformers produced, else its own name -/
+def chooseEnumTarget (enumMap tmap : List (S × S)) (name : S) : S :=
+  match enumMap.lookup name with
+  | some x => x
+  | none => match tmap.lookup name with
+    | some x => x
+    | none => name
+
+/-- a later transformer overrides an earlier one for the members it maps, and adds the rest -/
+def mergeTransformer (tmap m : List (S × S)) : List (S × S) :=
+  (tmap.filter (fun (k, _) => !m.any (·.1 == k))) ++ m
+
 /-- the enum mapping of one position (builder/enum.go Enum.Build without the target variable) -/
 def enumPlan (c : Converter) (cx : Ctx) (s t : Ty) (path : List PathElem) : M Conv := do
   let some sm := enumMembers c cx.cfg.common s | fail (.unsupported "enum source")
@@ -349,7 +361,7 @@ def enumPlan (c : Converter) (cx : Ctx) (s t : Ty) (path : List PathElem) : M Co
       if m.isEmpty then
         -- (an invalid pattern with an empty source list cannot be told apart; members are never empty)
         fail .enumTransformerEmpty
-      tmap := (tmap.filter (fun (k, _) => !m.any (·.1 == k))) ++ m
+      tmap := mergeTransformer tmap m
     | _ => fail .enumTransformerError
   let action (targetName : S) : M EnumAction := do
     if Settings.isEnumAction targetName then
@@ -368,11 +380,7 @@ def enumPlan (c : Converter) (cx : Ctx) (s t : Ty) (path : List PathElem) : M Co
   let mut remaining := defined
   for sd in sm do       -- members are sorted by name
     remaining := remaining.filter (· != sd.name)
-    let targetName := match cx.cfg.enumMap.lookup sd.name with
-      | some x => x
-      | none => match tmap.lookup sd.name with
-        | some x => x
-        | none => sd.name
+    let targetName := chooseEnumTarget cx.cfg.enumMap tmap sd.name
     let act ← action targetName
     match seenVals.find? (fun (v, _) => v == sd.val) with
     | some (_, prevTarget) =>
